@@ -11,6 +11,9 @@ a = ap.parse_args()
 seed = int(os.environ.get("VERIF_SEED", "1") or 1)
 if a.tier not in ("quick", "thorough"):
     a.tier = "quick"
+if a.replay and hasattr(harness.load_check(a.pid), "main"):
+    # exhaustive checks: a replay is a fresh complete run
+    sys.exit(harness.load_check(a.pid).main(a.tier, seed, None))
 if a.replay:
     rec = json.load(open(a.replay))
     errs = harness.replay_case(a.pid, rec)
